@@ -690,21 +690,21 @@ def _ones_on_axis(nd, k, n):
 
 # ----------------------------------------------------------------------------- selections
 
-def sel_head(name, perm=False):
+def sel_head(name, perm=False, inj=False):
     h = f"Sel:{name}"
     if h not in ST.head:
-        ST.head[h] = HeadInfo("Sel", extra="perm" if perm else None)
+        ST.head[h] = HeadInfo("Sel", extra="perm" if perm else ("inj" if inj else None))
     return h
 
 
-def gather_axis(v, ax, idxname, newsize, perm=False, inverse=False):
+def gather_axis(v, ax, idxname, newsize, perm=False, inverse=False, inj=False):
     """v.take(idx, axis=ax) / v[..., idx, ...]: contraction with a one-hot selection head.
     perm: idx is a permutation of the whole axis (distinct indices, newsize == size): the head is orthogonal.
     inverse (perm only): gather with the inverse permutation = the same head with its two slots exchanged."""
     nd = len(v.axes)
     ax = _norm_axis(ax, nd)
     A = v.axes[ax]
-    h = sel_head(idxname, perm and axsize(A) == D(newsize))
+    h = sel_head(idxname, perm and axsize(A) == D(newsize), inj)
     if inverse and not (perm and axsize(A) == D(newsize) and ST.head[h].extra == "perm"):
         raise Undecided("inverse of an index array that is not a permutation of the whole axis")
     newsize = D(newsize)
@@ -892,6 +892,14 @@ def elementwise(kind, v, extra=None):
         return Val(v.axes, [(D(1), Net())], kind="bool")
     if kind == "Recip" and len(nt) == 1 and not nt[0][1].f and nt[0][0].is_const():
         return Val(v.axes, [(D(1) / nt[0][0], Net())])
+    if kind == "Sqrt" and len(nt) == 1 and nt[0][0].is_one() and nt[0][1].f and all(ST.head[h].kind == "Recip" for h, _ in nt[0][1].f) \
+            and all(x in allfree(v) for _, ix in nt[0][1].f for x in ix):
+        # sqrt(1/X) = sqrt(X) / X   (one canonical form for standard deviations and their reciprocals; X a product of positive scalars)
+        X = None
+        for h, ix in nt[0][1].f:
+            a = head_arg_val(h, ix, v.axes)
+            X = a if X is None else mul(X, a)
+        return mul(elementwise("Recip", X), elementwise("Sqrt", X))
     if kind == "IsFinite":
         # arrays are built from finite generic tensors (infinite constants are not modelled): the guard is identically true
         return Val(v.axes, [(D(1), Net())], kind="bool")
@@ -1270,8 +1278,12 @@ def simplify(coef, net, free):
             for i2, (h2, x2) in enumerate(f):
                 if i2 > i1 and h2 == h1 and x2 == x1:
                     arg = H[h1].arg[1]
-                    if len(arg) == 1 and arg[0][0].is_one() and all(y in H[h1].bslots for _, jx in arg[0][1].f for y in jx):
+                    if len(arg) == 1 and arg[0][0].is_one():
                         m = dict(zip(H[h1].bslots, x1))
+                        for _, jx in arg[0][1].f:
+                            for y in jx:
+                                if y not in m:
+                                    m[y] = fresh(ST.size[y], "q")      # summed index inside the argument
                         f = [g for k, g in enumerate(f) if k not in (i1, i2)] + [(hh, tuple(m[y] for y in jx)) for hh, jx in arg[0][1].f]
                         changed = True
                     break
@@ -1376,6 +1388,19 @@ def simplify(coef, net, free):
                 del f[i1]           # sum over a one-hot row is 1
                 changed = True
                 break
+            if H[h1].extra in ("perm", "inj") and w is not None:
+                # distinct indices: two rows of the selection that hit the same position are the same row
+                hit = False
+                for i2, (h2, x2) in enumerate(f):
+                    if i2 <= i1 or h2 != h1 or len(x2) != 2 or x2[1] != v or x2[0] == w:
+                        continue
+                    if H[h1].extra == "perm" and v not in free and cnt[v] == 2:
+                        continue          # P P' = I below
+                    f = [g for k, g in enumerate(f) if k != i2] + [("delta", (w, x2[0]))]
+                    changed = hit = True
+                    break
+                if hit:
+                    break
             if H[h1].extra == "perm" and w is not None:
                 if w not in free and cnt[w] == 1:
                     del f[i1]       # permutation: columns sum to one as well
